@@ -77,6 +77,10 @@ func (s *source) RelationHistory(ctx context.Context, id osm.RelationID) (osm.Re
 
 func (s *source) NotFound(err error) bool { return err == errNF }
 
+// hung counts runs that did not end within the deadline; after a few of them the remaining
+// runs are skipped (every one would cost the full deadline and leak a goroutine)
+var hung int
+
 type obs struct {
 	seq        []int64
 	err        int
@@ -137,7 +141,8 @@ func run(g *graph, reqs []int64, mode, k int) obs {
 		}
 		o.terminated = runtime.NumGoroutine() <= base
 		return o
-	case <-time.After(5 * time.Second):
+	case <-time.After(2 * time.Second):
+		hung++
 		return obs{terminated: false, err: 1}
 	}
 }
@@ -383,7 +388,7 @@ func main() {
 		wr.Add(mkCase(q.g, q.reqs, 1, 1))
 		wr.Add(mkCase(q.g, q.reqs, 2, 0))
 	}
-	for i := 0; i < ngraphs; i++ {
+	for i := 0; i < ngraphs && hung < 3; i++ {
 		g := genGraph(rng)
 		reqs := genReqs(rng, g)
 		c := mkCase(g, reqs, 0, 0)
@@ -399,7 +404,7 @@ func main() {
 			stops = []int{0, 1, 2, 3, 4, 5, 6, 7, 8, 9, 10, 11, 12, 13}
 		}
 		for _, k := range stops {
-			if k > len(g.nodes)+1 {
+			if k > len(g.nodes)+1 || hung >= 3 {
 				break
 			}
 			if rng.Intn(2) == 0 || a.Tier == "thorough" {
